@@ -62,4 +62,9 @@ CORPUS = [
     "lambda: type X = 1\n", "pass; type X\n", "(pass; type X = int)\n", "f(x; type X = 1)\n", "{a: type # c\n X = 1}\n",
     "[a; type X = 1]\n", "{a: type\n X = 1}\n", "(a): type X = 1\n", "x[a]: type X = 1\n", ") : type X = 1\n",
     "( ; type X = 1 )\n", "[ : type X = 1\n", "( ) : type X = 1\n", "{ } ; type X = 1\n",
+    # the bracket counter of the pass over NESTED brackets: one closer must not cancel two openers (found with tools/automut.py:
+    # `saturating_sub(2)` survived the quick tier)
+    "[(a); type X = 1]\n", "f((a): type X = 1)\n", "{(a); type X = 1}\n", "[[a]; type X = 1]\n", "(((a)) ; type X = 1)\n",
+    "((a)); type X = 1\n", "[[a]]; type X = 1\n", "{(a): [b]}; type X = 1\n", "f(g(h(a))); type X = int\n", "x = ((a), (b)); type X = int\n",
+    "((a) ; type X = 1\n", "[(a] ; type X = 1\n", "(a)) ; type X = 1\n", "((a))) ; type X = 1\n",
 ]
